@@ -158,7 +158,7 @@ func c15(c *Ctx) {
 			case ConstBool(true)(st.Val):
 				nT++
 				c.Dominates(st, wait, "flag-set-before-waiting")
-				c.Expect(st.Block() == wait.Block(), st, ka, "flag-set-in-the-waiting-arm", "the dormancy flag is set outside the arm that waits")
+				c.Expect(together(st, wait), st, ka, "flag-set-in-the-waiting-arm", "the dormancy flag is set outside the arm that waits")
 			case ConstBool(false)(st.Val):
 				nF++
 			}
@@ -178,7 +178,7 @@ func c15(c *Ctx) {
 					test := sg.Block().Preds[0]
 					for _, su := range test.Succs {
 						if su != sg.Block() {
-							c.EnteredOnlyWhenExcept(su, "signal-skipped-only-when-not-dormant", func(p *ssa.BasicBlock) bool { return p != test }, Truth(FieldLoad(fDor), false))
+							c.EnteredOnlyWhenFrom(su, "signal-skipped-only-when-not-dormant", test, Truth(FieldLoad(fDor), false))
 						}
 					}
 					// the test itself is on the flag alone
